@@ -14,8 +14,12 @@ TEMPLATES = {
     "default": (None, ["file://", "{path}"]),
     "host-line": ("x://{host}/{path}:{line}", ["x://", "{host}", "/", "{path}", ":", "{line}"]),
     "line-first": ("vscode://file/{path}#L{line}", ["vscode://file/", "{path}", "#L", "{line}"]),
+    "placeholders-twice": ("x://h/{path}:{line}?p={path}&l={line}", ["x://h/", "{path}", ":", "{line}", "?p=", "{path}", "&l=", "{line}"]),
 }
-CTEMPLATE = ("https://example.org/c/{commit}", ["https://example.org/c/", "{commit}"])
+CTEMPLATES = [("https://example.org/c/{commit}", ["https://example.org/c/", "{commit}"]),
+              ("https://example.org/c/{commit}?diff=split&highlight={commit}",
+               ["https://example.org/c/", "{commit}", "?diff=split&highlight=", "{commit}"]),
+              ("https://example.org/fixed", ["https://example.org/fixed"])]
 MODES = {
     "rs+numbers": gitskin.RS_ARGS + ["--line-numbers"],
     "rs+sbs": gitskin.rs_args(180) + ["--side-by-side"],
@@ -57,8 +61,16 @@ def run(tier):
             if (kd == "del" and l["c"] in ("plus", "zero")) or (kd == "add" and l["c"] in ("minus", "zero")):
                 return False
         return True
+    covmode, _ = stream.cover_histories(pairs=False, cfg="Cover_Stream_mode")     # mode changes with binary content / renames
     cov = [h for h in cov if len(h) >= 4 and realistic(h)]
-    hists = rnd.sample(cov, min(len(cov), 300 if tier == "quick" else 4000))
+    covmode = [h for h in covmode if len(h) >= 4 and realistic(h)]
+    nq = 300 if tier == "quick" else 4000
+    hists = rnd.sample(cov, min(len(cov), nq))
+    # strata a uniform sample may miss: commit lines, sections whose header is written late (mode change, binary)
+    for pred in (lambda h: any(l["c"] == "commit" for l in h),
+                 lambda h: any(l.get("kd") in ("modebin", "renmode") for l in h)):
+        st = [h for h in cov + covmode if pred(h)]
+        hists += rnd.sample(st, min(len(st), nq // 4))
     host = socket.gethostname()
     sub = os.path.join(core.scratch(), "cwd", "sub dir")
     os.makedirs(sub, exist_ok=True)
@@ -66,26 +78,36 @@ def run(tier):
     for i, h in enumerate(hists):
         mode = list(MODES)[i % len(MODES)]
         tname = list(TEMPLATES)[(i // len(MODES)) % len(TEMPLATES)]
-        jobs.append((h, mode, tname, i % 7 == 0))
+        # 0: delta runs in the directory the paths are relative to; 1: git ran it from a subdirectory (GIT_PREFIX);
+        # 2: ... with --relative-paths, and a `git log --stat` preamble whose paths delta rewrites
+        jobs.append((h, mode, tname, (1 if i % 7 == 0 else 2 if i % 7 == 3 else 0), i % len(CTEMPLATES)))
 
     def one(job):
-        h, mode, tname, insub = job
-        data, texts = gitskin.concretise(h, payload=lambda k, c: f"tokZ{k}Z " + ("long " * 14 if k % 5 == 0 else "w"))
-        extra = ["--hyperlinks", "--hyperlinks-commit-link-format", CTEMPLATE[0]]
+        h, mode, tname, insub, ct = job
+        def payload(k, c):
+            if c == "other" and insub == 2:
+                return [" alphaZ1Z.rs         |  3 ++-", " sub dir/betaZ2Z.rs   | 10 +++++-----", " 2 files changed, 7 insertions(+)"][k % 3]
+            return f"tokZ{k}Z " + ("long " * 14 if k % 5 == 0 else "w")
+        if insub == 2:
+            Lk = lambda c: {"c": c, "f": 0, "g": 0, "kd": ""}
+            h = [Lk("commit"), Lk("other"), Lk("other"), Lk("other"), Lk("other")] + [l for l in h]
+        data, texts = gitskin.concretise(h, payload=payload, skin={"other_payload": True} if insub == 2 else None)
+        extra = ["--hyperlinks", "--hyperlinks-commit-link-format", CTEMPLATES[ct][0]]
         if TEMPLATES[tname][0]:
             extra += ["--hyperlinks-file-link-format", TEMPLATES[tname][0]]
         # git starts its pager in the repository root and passes the user's directory in GIT_PREFIX
         env = {"GIT_PREFIX": "sub dir/"} if insub else None
         cwd = None
-        with_l = core.run_delta(MODES[mode] + extra, data, env=env, cwd=cwd)
-        without = core.run_delta(MODES[mode], data, env=env, cwd=cwd)
+        relp = ["--relative-paths"] if insub == 2 else []
+        with_l = core.run_delta(MODES[mode] + relp + extra, data, env=env, cwd=cwd)
+        without = core.run_delta(MODES[mode] + relp, data, env=env, cwd=cwd)
         return with_l, without
 
     res = core.pmap(one, jobs)
     intern = gitskin.Interner()
     rel, term, links = [], [], []
     root = os.path.join(core.scratch(), "cwd")
-    for i, ((h, mode, tname, insub), (w, wo)) in enumerate(zip(jobs, res)):
+    for i, ((h, mode, tname, insub, ct), (w, wo)) in enumerate(zip(jobs, res)):
         if w.code != 0 or wo.code != 0:
             V.violation(f"exit:{mode}", f"delta exited {w.code}/{wo.code} in mode {mode}", {"run": w.to_json()})
             continue
@@ -98,6 +120,7 @@ def run(tier):
             for rb in w.out.split(b"\n")[:-1]:
                 p = gitskin.parse_row(rb, intern)
                 cells, _ = gitskin.kinded_cells(rb)
+                base = os.path.join(root, "sub dir") if insub == 2 else root     # what displayed paths are relative to
                 hhpath = "".join(g for g, kd, wd, c in cells if kd == "hhFile")
                 hhline = "".join(g for g, kd, wd, c in cells if kd == "hhLine")
                 lks = []
@@ -114,10 +137,10 @@ def run(tier):
                     kind = ("num" if t.isdigit() else "path" if _PATH.match(t) else
                             "commit" if re.fullmatch(r"[0-9a-f]{7,40}", t) else "other")
                     lks.append({"text": t, "url": url, "kind": kind, "line": line,
-                                "abs": os.path.normpath(os.path.join(root, t)) if kind == "path" else ""})
+                                "abs": os.path.normpath(os.path.join(base, t)) if kind == "path" else ""})
                 k = p["t"] if p["t"] in ("fileHdr", "hunkHdr", "commit") else ("code" if p["t"] in ("minus", "plus", "zero") else "other")
-                rows.append({"k": k, "abs": os.path.normpath(os.path.join(root, hhpath)) if hhpath else "", "links": lks})
-            links.append({"run": i, "parts": TEMPLATES[tname][1], "cparts": CTEMPLATE[1], "cwd": root, "host": host, "rows": rows})
+                rows.append({"k": k, "abs": os.path.normpath(os.path.join(base, hhpath)) if hhpath else "", "links": lks})
+            links.append({"run": i, "parts": TEMPLATES[tname][1], "cparts": CTEMPLATES[ct][1], "cwd": root, "host": host, "rows": rows})
     f_rel, r1 = tlc.validate_trace("Trace_Rel", rel)
     n = max(1, min(6, len(term) // 20000 + 1))
     outs = core.pmap(lambda ch: tlc.validate_trace("Trace_Term", ch, heap="3g"), [term[i::n] for i in range(n)], jobs=n)
@@ -129,13 +152,13 @@ def run(tier):
     if nlinks < 50:
         raise core.ToolError("hardly any hyperlink was observed: the check would be vacuous")
     for f in f_rel:
-        h, mode, tname, insub = jobs[f["run"]]
+        h, mode, tname, insub, ct = jobs[f["run"]]
         V.violation(f"transparent:{mode}:{stream.shape(h)[:200]}", f"output with OSC 8 sequences removed differs from the run without "
                     f"--hyperlinks at row {f['at']} (mode {mode}, [{stream.shape(h)[:160]}])",
                     {"history": h, "mode": mode, "run": res[f["run"]][0].to_json()})
     seen = set()
     for f in f_term:
-        h, mode, tname, insub = jobs[f["run"]]
+        h, mode, tname, insub, ct = jobs[f["run"]]
         if (f["why"], mode) in seen:
             continue
         seen.add((f["why"], mode))
@@ -143,15 +166,15 @@ def run(tier):
                                                                                               "run": res[f["run"]][0].to_json()})
     for f in f_links:
         e = links[[x["run"] for x in links].index(f["run"])] if False else None
-        h, mode, tname, insub = jobs[f["run"]]
+        h, mode, tname, insub, ct = jobs[f["run"]]
         V.violation(f"target:{mode}:{tname}:{insub}:{stream.shape(h)[:200]}", f"a hyperlink in output row {f['row']} has the wrong target "
-                    f"(mode {mode}, template {tname}, in subdirectory={insub}, [{stream.shape(h)[:120]}])",
+                    f"(mode {mode}, template {tname}, in subdirectory (0 no, 1 GIT_PREFIX, 2 with --relative-paths)={insub}, [{stream.shape(h)[:120]}])",
                     {"history": h, "mode": mode, "template": tname, "run": res[f["run"]][0].to_json()})
     rc = V.finish()
     core.write_evidence(PID, tier, "model_checking", {
         "states": r1.distinct + r3.distinct + sum(r.distinct for fl, r in outs), "transitions": r1.generated + r3.generated,
         "traces_validated_against_impl": len(rel) + len(links), "evaluations": len(rel) + len(term) + nlinks,
-        "distinct_nontrivial": len({json.dumps(j[0]) + j[1] + j[2] + str(j[3]) for j in jobs}),
+        "distinct_nontrivial": len({json.dumps(j[0]) + j[1] + j[2] + str(j[3]) + str(j[4]) for j in jobs}),
         "rule": "transition-cover histories (with wrapping lines) x six modes x three file-link templates, run with and without "
                 "--hyperlinks, from the repository root and from a subdirectory (GIT_PREFIX): TLC judges transparency (Trace_Rel), "
                 "per-row link balance (Trace_Term) and every link target against path / displayed line number / commit hash "
